@@ -75,6 +75,8 @@ type model struct {
 	iters    [3]*itState
 	now      int
 
+	emptyKey map[string]bool // buckets on which this execution passed the empty key (a nil slice) to Get / Put / Del
+
 	utxoNext map[string]int
 	ins      []*protos.TxInput
 	outs     []*protos.TxOutput
@@ -85,7 +87,7 @@ type model struct {
 
 func newModel(bk *backingDesc) *model {
 	return &model{bk: bk, ov: map[bkey]*ovEntry{}, hist: map[bkey][]histEnt{}, needRead: map[bkey]string{},
-		looked: map[bkey]bool{}, utxoNext: map[string]int{}}
+		looked: map[bkey]bool{}, utxoNext: map[string]int{}, emptyKey: map[string]bool{}}
 }
 
 // liveAt: state of a key at time t (0 = backing state, i+1 = after op i)
@@ -237,6 +239,10 @@ func (m *model) step(i int, op Op, obs *Obs) *problem {
 			what = "next"
 		}
 		return &problem{"sandbox|panic|" + what, fmt.Sprintf("op %d %s panicked: %s", i, op, obs.Panic)}
+	}
+	if (op.Kind == opGet || op.Kind == opPut || op.Kind == opDel) && op.Key == "" {
+		m.emptyKey[op.B] = true
+		m.f.emptyKey = true
 	}
 	switch op.Kind {
 	case opGet:
@@ -416,8 +422,24 @@ func (m *model) flush() {
 	}
 }
 
-// judgeItems checks the items one Next batch yielded (and the exhaustion report).
+// generic scan symptoms; when the scanned bucket holds the empty key they are reported under
+// one signature of their own (the merge orders a nil key last instead of first)
+var genericScanSig = map[string]bool{"sandbox|scan-misses-live-key": true, "sandbox|scan-out-of-order": true, "sandbox|scan-wrong-value": true,
+	"sandbox|scan-yields-non-live-key": true, "sandbox|replay-differs|scan|items": true}
+
+const emptyKeySig = "sandbox|scan-wrong|empty-key-in-scanned-bucket"
+
 func (m *model) judgeItems(i int, op Op, it *itState, obs *Obs) *problem {
+	p := m.judgeItems1(i, op, it, obs)
+	if p != nil && m.emptyKey[it.b] && genericScanSig[p.Sig] {
+		p.Sig = emptyKeySig
+		p.Detail += " [the execution used the empty key, passed as a nil slice, in this bucket]"
+	}
+	return p
+}
+
+// judgeItems1 checks the items one Next batch yielded (and the exhaustion report).
+func (m *model) judgeItems1(i int, op Op, it *itState, obs *Obs) *problem {
 	if obs.IterErr != "" {
 		return &problem{"sandbox|iterator-error", fmt.Sprintf("op %d %s: iterator error %q", i, op, obs.IterErr)}
 	}
